@@ -1324,4 +1324,314 @@ theorem verdict_modify {s : State} (inv : s.Inv) (f : Node → Node) (hf : ∀ n
       | some n => simp only [Option.map, ha, validGuard_congr (hg n)]
     · simp [hx]
 
+/-! ## sequence number, period switches, stage counter, allocation numbers -/
+
+theorem successes_append (a b : List Ev) : successes (a ++ b) = successes a + successes b := by
+  induction a with
+  | nil => simp [successes]
+  | cons e es ih => cases e <;> simp [successes, ih] <;> omega
+
+theorem successes_check (tc : Bool) (n : Node) (file : String) (line : Nat) (a : Allocator) (sep : Bool) :
+    successes (checkForCorruption tc n file line a sep) = 0 := by
+  unfold checkForCorruption
+  split
+  · simp [successes, failEv]
+  · split
+    · simp [successes, failEv]
+    · split <;> simp [successes]
+
+theorem successes_nodeAlloc (sep : Bool) : successes (nodeAllocEvs sep) = 0 := by
+  unfold nodeAllocEvs; split <;> simp [successes]
+
+/-- a release returns nothing to its caller and keeps every scalar of the detector -/
+theorem dealloc_keeps_scalars (s : State) (a : Allocator) (addr : Nat) (file : String) (line : Nat) (sep : Bool) :
+    successes (dealloc s a addr file line sep).2 = 0 ∧
+    (dealloc s a addr file line sep).1.period = s.period ∧ (dealloc s a addr file line sep).1.stage = s.stage ∧
+    (dealloc s a addr file line sep).1.seq = s.seq ∧ (dealloc s a addr file line sep).1.typeChecking = s.typeChecking := by
+  unfold dealloc
+  split
+  · simp [successes]
+  · split
+    · simp [successes, nonAllocatedEv]
+    · simp [successes_append, successes_check, successes]
+
+theorem stageLoop_keeps_scalars : ∀ (fuel : Nat) (s : State) (cur : Option Node),
+    successes (stageLoop fuel s cur).2 = 0 ∧
+    (stageLoop fuel s cur).1.period = s.period ∧ (stageLoop fuel s cur).1.stage = s.stage ∧
+    (stageLoop fuel s cur).1.seq = s.seq ∧ (stageLoop fuel s cur).1.typeChecking = s.typeChecking
+  | 0, s, cur => by simp [stageLoop, successes]
+  | fuel + 1, s, none => by simp [stageLoop, successes]
+  | fuel + 1, s, some node => by
+    simp only [stageLoop, prependEvs, successes_append]
+    have h1 := dealloc_keeps_scalars s node.allocator node.addr stageFile 0 false
+    have h2 := stageLoop_keeps_scalars fuel (dealloc s node.allocator node.addr stageFile 0 false).1
+      (s.table.getNextLeak (isInStage s.stage) node)
+    obtain ⟨a1, a2, a3, a4, a5⟩ := h1
+    obtain ⟨b1, b2, b3, b4, b5⟩ := h2
+    refine ⟨by omega, b2.trans a2, b3.trans a3, b4.trans a4, b5.trans a5⟩
+
+theorem seq_step (s : State) (op : Op) : (step s op).1.seq = s.seq + successes (step s op).2 := by
+  cases op with
+  | alloc a size file line sep result nodeOk fill =>
+    simp only [step, alloc]
+    split
+    · simp [successes]
+    · split
+      · simp [successes]
+      · rename_i hz
+        split
+        · simp [successes]
+        · simp [storeLeakInformation, successes_append, successes_nodeAlloc, successes, hz]
+  | dealloc a addr file line sep =>
+    have := dealloc_keeps_scalars s a addr file line sep
+    simp only [step]; omega
+  | realloc a addr size file line sep result fill =>
+    simp only [step, realloc]
+    split
+    · simp [successes]
+    · split
+      · unfold reallocTail
+        split
+        · simp [successes]
+        · rename_i hz; simp [storeLeakInformation, successes_append, successes_nodeAlloc, successes, hz]
+      · split
+        · simp [successes, nonAllocatedEv]
+        · simp only [prependEvs, successes_append, successes_check, Nat.zero_add]
+          unfold reallocTail
+          split
+          · simp [successes, successes_append, successes_nodeAlloc]
+          · rename_i hz; simp [storeLeakInformation, successes_append, successes_nodeAlloc, successes, hz]
+  | deallocStage =>
+    have := stageLoop_keeps_scalars (s.table.nodeCount + 1) s (s.table.getFirstLeak (isInStage s.stage))
+    simp only [step, deallocStage]; omega
+  | _ => simp [step, successes, startChecking, stopChecking, enable, disable, enableTypeChecking, disableTypeChecking,
+      increaseStage, decreaseStage, clearAllAccounting, markChecking, invalidateMemory, writeByte] <;> (try split) <;> rfl
+
+theorem period_step (s : State) (op : Op) : (step s op).1.period = (periodSwitch op).getD s.period := by
+  cases op with
+  | alloc a size file line sep result nodeOk fill =>
+    simp only [step, alloc, periodSwitch]
+    split
+    · rfl
+    · split
+      · rfl
+      · split <;> rfl
+  | dealloc a addr file line sep => exact (dealloc_keeps_scalars s a addr file line sep).2.1
+  | realloc a addr size file line sep result fill =>
+    simp only [step, realloc, periodSwitch]
+    split
+    · rfl
+    · split
+      · unfold reallocTail; split <;> rfl
+      · split
+        · rfl
+        · simp only [prependEvs]; unfold reallocTail; split
+          · rfl
+          · rfl
+  | deallocStage => exact (stageLoop_keeps_scalars _ s _).2.1
+  | invalidate addr => simp only [step, invalidateMemory, periodSwitch]; split <;> rfl
+  | _ => rfl
+
+theorem stage_step (s : State) (op : Op) :
+    (step s op).1.stage = match op with
+      | .incStage => s.stage + 1
+      | .decStage => s.stage - 1
+      | _ => s.stage := by
+  cases op with
+  | alloc a size file line sep result nodeOk fill =>
+    simp only [step, alloc]
+    split
+    · rfl
+    · split
+      · rfl
+      · split <;> rfl
+  | dealloc a addr file line sep => exact (dealloc_keeps_scalars s a addr file line sep).2.2.1
+  | realloc a addr size file line sep result fill =>
+    simp only [step, realloc]
+    split
+    · rfl
+    · split
+      · unfold reallocTail; split <;> rfl
+      · split
+        · rfl
+        · simp only [prependEvs]; unfold reallocTail; split
+          · rfl
+          · rfl
+  | deallocStage => exact (stageLoop_keeps_scalars _ s _).2.2.1
+  | invalidate addr => simp only [step, invalidateMemory]; split <;> rfl
+  | _ => rfl
+
+theorem increaseStageTimes_stage (k : Nat) (s : State) :
+    (increaseStageTimes k s).stage = s.stage + BitVec.ofNat 8 k := by
+  induction k with
+  | zero => simp [increaseStageTimes]
+  | succ k ih =>
+    simp only [increaseStageTimes, increaseStage, ih]
+    rw [BitVec.add_assoc]
+    congr 1
+    rw [BitVec.ofNat_add]
+    rfl
+
+theorem increaseStageTimes_nodes (k : Nat) (s : State) : (increaseStageTimes k s).nodes = s.nodes := by
+  induction k with
+  | zero => rfl
+  | succ k ih => simpa [increaseStageTimes, increaseStage, State.nodes] using ih
+
+/-! ### allocation numbers identify the records -/
+
+def NumOk (L : List Node) (seq : Nat) : Prop := (∀ n ∈ L, n.number < seq) ∧ (L.map (·.number)).Nodup
+
+theorem numOk_sublist {L L' : List Node} {seq : Nat} (h : L'.Sublist L) (ok : NumOk L seq) : NumOk L' seq :=
+  ⟨fun n hn => ok.1 n (h.subset hn), (h.map _).nodup ok.2⟩
+
+theorem numOk_perm {L L' : List Node} {seq : Nat} (h : L'.Perm L) (ok : NumOk L seq) : NumOk L' seq :=
+  ⟨fun n hn => ok.1 n (h.mem_iff.mp hn), ((h.map _).nodup_iff).mpr ok.2⟩
+
+theorem numOk_cons_new {L : List Node} {seq : Nat} (n : Node) (hn : n.number = seq) (ok : NumOk L seq) :
+    NumOk (n :: L) (seq + 1) := by
+  refine ⟨?_, ?_⟩
+  · intro m hm
+    simp only [List.mem_cons] at hm
+    rcases hm with rfl | hm
+    · omega
+    · have := ok.1 m hm; omega
+  · simp only [List.map_cons, List.nodup_cons, List.mem_map, not_exists, not_and]
+    refine ⟨?_, ok.2⟩
+    intro m hm h
+    have := ok.1 m hm
+    omega
+
+theorem numOk_map {L : List Node} {seq : Nat} (f : Node → Node) (hf : ∀ n, (f n).number = n.number) (ok : NumOk L seq) :
+    NumOk (L.map f) seq := by
+  refine ⟨?_, ?_⟩
+  · intro m hm
+    obtain ⟨x, hx, rfl⟩ := List.mem_map.mp hm
+    rw [hf]; exact ok.1 x hx
+  · rw [List.map_map]
+    have : ((fun n : Node => n.number) ∘ f) = (fun n => n.number) := by funext n; exact hf n
+    rw [this]; exact ok.2
+
+theorem map_number_modifyNode (f : Node → Node) (hf : ∀ n, (f n).number = n.number) (l : List Node) (a : Nat) :
+    (Bucket.modifyNode f l a).map (·.number) = l.map (·.number) := by
+  induction l with
+  | nil => rfl
+  | cons x xs ih =>
+    by_cases hx : x.addr = a
+    · simp [Bucket.modifyNode, hx, hf]
+    · simp [Bucket.modifyNode, hx, ih]
+
+theorem numOk_modifyNode {L : List Node} {seq : Nat} (f : Node → Node) (hf : ∀ n, (f n).number = n.number) (a : Nat)
+    (ok : NumOk L seq) : NumOk (Bucket.modifyNode f L a) seq := by
+  refine ⟨?_, ?_⟩
+  · intro m hm
+    rcases Table.Bucket.mem_modifyNode f L a m hm with h | ⟨x, hx, rfl⟩
+    · exact ok.1 m h
+    · rw [hf]; exact ok.1 x hx
+  · rw [map_number_modifyNode f hf]; exact ok.2
+
+theorem numOk_readd {A B : List Node} {o o' : Node} {seq : Nat} (ho : o'.number = o.number)
+    (ok : NumOk (A ++ o :: B) seq) : NumOk (o' :: (A ++ B)) seq := by
+  have ok2 : NumOk (o :: (A ++ B)) seq := numOk_perm List.perm_middle.symm ok
+  refine ⟨?_, ?_⟩
+  · intro m hm
+    simp only [List.mem_cons] at hm
+    rcases hm with rfl | hm
+    · rw [ho]; exact ok2.1 o (by simp)
+    · exact ok2.1 m (by simp [hm])
+  · have := ok2.2
+    simp only [List.map_cons] at this ⊢
+    rw [ho]; exact this
+
+theorem nodes_store_perm {s : State} (inv : s.Inv) (addr size : Nat) (a : Allocator) (file : String) (line : Nat)
+    (sep : Bool) (fill : UInt8) :
+    (storeLeakInformation s addr size a file line sep fill).nodes.Perm
+      (Spec.newNode (abs s) addr size a file line sep fill :: s.nodes) :=
+  Table.Inv.flat_add_perm inv _
+
+theorem numInv_step {s : State} (inv : s.Inv) (op : Op) (hf : FreshAddr s op) (ok : NumInv s) : NumInv (step s op).1 := by
+  have ok' : NumOk s.nodes s.seq := ok
+  show NumOk (step s op).1.nodes (step s op).1.seq
+  cases op with
+  | alloc a size file line sep result nodeOk fill =>
+    simp only [step, alloc]
+    split
+    · exact ok'
+    · split
+      · exact ok'
+      · split
+        · exact ok'
+        · exact numOk_perm (nodes_store_perm inv _ _ _ _ _ _ _) (numOk_cons_new _ rfl ok')
+  | dealloc a addr file line sep =>
+    simp only [step, dealloc]
+    split
+    · exact ok'
+    · split
+      · exact ok'
+      · show NumOk (State.nodes { s with table := s.table.unlinkNode addr }) s.seq
+        rw [nodes_unlink inv]
+        exact numOk_sublist List.eraseP_sublist ok'
+  | realloc a addr size file line sep result fill =>
+    simp only [step, realloc]
+    split
+    · exact ok'
+    · split
+      · unfold reallocTail
+        split
+        · exact ok'
+        · exact numOk_perm (nodes_store_perm inv _ _ _ _ _ _ _) (numOk_cons_new _ rfl ok')
+      · split
+        · exact ok'
+        · rename_i n hr
+          have hn := (retrieve_some_iff inv).mp hr
+          have inv1 : State.Inv { s with table := s.table.unlinkNode addr } := Table.Inv.unlink inv addr
+          have hnodes1 := nodes_unlink inv addr
+          simp only [prependEvs]
+          unfold reallocTail
+          split
+          · -- failed: the old record comes back
+            show NumOk (Table.flat (Table.addNewNode (s.table.unlinkNode addr) { n with sepNode := sep })) s.seq
+            have hp := Table.Inv.flat_add_perm inv1 { n with sepNode := sep }
+            refine numOk_perm hp ?_
+            have hl : lookup s.nodes addr = some n := by rw [← retrieve_eq_lookup inv]; exact hr
+            obtain ⟨s1, s2, hs, _, _⟩ := find_split hl
+            have hnd : ((s1 ++ n :: s2).map (·.addr)).Nodup := by rw [← hs]; exact inv.distinct
+            have he : (s.table.unlinkNode addr).flat = s1 ++ s2 := by
+              have := hnodes1
+              simp only [State.nodes] at this
+              rw [this]
+              show s.nodes.eraseP _ = _
+              rw [hs, ← hn.2, eraseP_split hnd]
+            rw [he]
+            rw [hs] at ok'
+            exact numOk_readd (o := n) (o' := { n with sepNode := sep }) rfl ok'
+          · refine numOk_perm (nodes_store_perm inv1 _ _ _ _ _ _ _) (numOk_cons_new _ rfl ?_)
+            show NumOk (State.nodes { s with table := s.table.unlinkNode addr }) s.seq
+            rw [hnodes1]
+            exact numOk_sublist List.eraseP_sublist ok'
+  | deallocStage =>
+    obtain ⟨h1, _, _, _, h5, _, _⟩ := deallocStage_spec inv
+    simp only [step]
+    rw [h1, h5]
+    exact numOk_sublist List.filter_sublist ok'
+  | clear p =>
+    show NumOk (s.table.clearAllAccounting p).flat s.seq
+    rw [Table.flat_clear]
+    exact numOk_sublist List.filter_sublist ok'
+  | markChecking =>
+    simp only [step]
+    rw [(markChecking_nodes inv).1]
+    exact numOk_map demote (by intro n; unfold demote; split <;> rfl) ok'
+  | invalidate addr =>
+    simp only [step, invalidateMemory]
+    split
+    · show NumOk (s.table.modifyNode poison addr).flat s.seq
+      rw [Table.Inv.flat_modify inv]
+      exact numOk_modifyNode poison (fun _ => rfl) addr ok'
+    · exact ok'
+  | write addr off b =>
+    show NumOk (s.table.modifyNode _ addr).flat s.seq
+    rw [Table.Inv.flat_modify inv]
+    exact numOk_modifyNode (fun n => { n with bytes := setByte n.bytes off b }) (fun _ => rfl) addr ok'
+  | _ => exact ok'
+
 end LeakDetector
